@@ -21,6 +21,17 @@ Theorem C17_blockwise_no_group_straddles :
     forall b, In b (cumsum (optimal_chunks chunks labels)) -> no_straddle labels b.
 Proof. exact optimal_chunks_no_straddle. Qed.
 
+(* the same with elements whose label is missing (code -1) anywhere on the axis: they are attached to the
+   preceding group, and no REAL group straddles a new boundary *)
+Theorem C17_blockwise_no_group_straddles_with_missing_labels :
+  forall chunks labels, chunks <> [] -> Forall (fun c => 0 < c) chunks -> zlength labels = zsum chunks ->
+    (exists x, In x labels /\ 0 <= x) ->
+    contiguous (fill_missing labels) ->
+    forall b, In b (cumsum (optimal_chunks_missing chunks labels)) ->
+    forall i k, 0 <= i -> i < b -> b <= k -> k < zlength labels ->
+      0 <= znth labels i -> 0 <= znth labels k -> znth labels i <> znth labels k.
+Proof. exact optimal_chunks_missing_no_straddle. Qed.
+
 (* rechunk_for_cohorts: for ALL labels, forced sets, chunksize hints and old chunkings *)
 Theorem C17_cohorts_chunks_wf :
   forall force oldchunks chunksize ign labels, labels <> [] ->
@@ -44,6 +55,7 @@ Proof. intros. exact (cohort_loop_oldbreaks force oldbreaks chunksize labels 0 1
 
 Print Assumptions C17_blockwise_chunks_wf.
 Print Assumptions C17_blockwise_no_group_straddles.
+Print Assumptions C17_blockwise_no_group_straddles_with_missing_labels.
 Print Assumptions C17_cohorts_chunks_wf.
 Print Assumptions C17_forced_label_starts_chunk.
 Print Assumptions C17_old_boundaries_kept.
